@@ -41,6 +41,10 @@ Strata added by the coverage audit (all judged by the same oracle):
                   response), insecure and unknown mechanism, lower case, a second AUTH after success, AUTH inside a
                   transaction -- before and between transactions and directly behind a message.  In the
                   stop-and-wait reference the response line is its own unit (sent after the 334).
+  full reads      command-phase streams (MAIL / RSET / NOOP lines padded with parameters) whose total length is
+                  exactly k*R, k*R-1, k*R+1 for R = the size the server asks the socket for (observed, not assumed),
+                  k = 1, 2: in the command phase, with a transaction open (before DATA) and between transactions;
+                  one burst (= R-sized reads) with nothing more coming: every complete command must be answered.
   concurrent      2..3 sessions (own Server, own handler object, own socket) run as greenlets at the same time:
                   a recv() with no data ready switches back to the feeder, which hands the next segment to a
                   (seeded) session of its choice, so the sessions interleave segment by segment, each under its own
@@ -106,6 +110,7 @@ REQUIRED_HITS = ['reference-run', 'replies-compared', 'trace-compared', 'ref-mes
                  'ref-session-closed-by-handler-exception', 'ref-unit-larger-than-recv-size',
                  'ref-starttls-refused/argument', 'ref-starttls-refused/before-ehlo',
                  'ref-starttls-refused/handler-verdict', 'ref-starttls-refused-directly-behind-eod',
+                 'ref-stream-is-a-multiple-of-the-read-size',
                  'ref-auth-challenge-answered', 'ref-auth-succeeded', 'ref-auth-refused',
                  'conc/session-offering-starttls',
                  'conc/session-compared', 'conc/command-phase-while-other-inside-data-no-limit',
@@ -440,6 +445,65 @@ def auth_designed():
                        'layout': layout + ':' + name, 'units': units}
 
 
+# ---- command streams that fill the read buffer exactly -------------------------------------------------------
+
+class ProbeSocket(ScriptSocket):
+    asked = None
+
+    def recv(self, n, *flags):
+        self.asked = n
+        return ScriptSocket.recv(self, n, *flags)
+
+
+_RSZ = []
+
+
+def read_size():
+    """The size the server's IO asks the socket for (observed on a scripted socket)."""
+    if not _RSZ:
+        from slimta.smtp.io import IO
+        ss = ProbeSocket([b'x'])
+        IO(ss, address=('h', 1)).raw_recv()
+        _RSZ.append(ss.asked)
+    return _RSZ[0]
+
+
+def padded(units, tail, target):
+    """units + padding command lines + tail, exactly `target` bytes long."""
+    have = sum(len(d) for _, d in units) + sum(len(d) for _, d in tail)
+    out, i = list(units), 0
+    while target - have > 140:
+        ln = (b'MAIL FROM:<pad%d@x> BODY=8BITMIME SIZE=10\r\n' % i, b'RSET\r\n',
+              b'NOOP %s\r\n' % (b'p' * 50), b'VRFY user%d\r\n' % i)[i % 4]
+        out.append(['c', ln])
+        have += len(ln)
+        i += 1
+    if i % 4 in (1, 2):                      # leave no transaction open behind the padding
+        out.append(['c', b'RSET\r\n'])
+        have += 6
+    out.append(['c', b'NOOP %s\r\n' % (b'f' * (target - have - 7))])
+    return out + list(tail)
+
+
+def full_read_designed():
+    rsz = read_size()
+    E = [['c', b'EHLO c\r\n']]
+    for k in (1, 2):
+        for delta in (-1, 0, 1):
+            target = k * rsz + delta
+            for limit in (None,):
+                layouts = {
+                    'commands-only': padded(E, [], target),
+                    'commands-then-quit': padded(E, [['c', b'QUIT\r\n']], target),
+                    'before-data': padded(E, txn(0, 's', ['r', 'r'], 'plain')[:3], target),      # MAIL RCPT RCPT
+                    'between-txns': padded(E + txn(0, 's', ['r'], 'cmds'), [['c', b'RSET\r\n']], target),
+                    'pad-then-txn': padded(E, txn(0, 's', ['r'], 'plain'), target),
+                }
+                for layout, units in sorted(layouts.items()):
+                    yield {'origin': 'full-read', 'limit': limit, 'kinds': ['plain'],
+                           'layout': '%s:k=%d%+d' % (layout, k, delta), 'units': units}
+
+
 # ---- concurrent sessions ----------------------------------------------------------------------------------
 
 NCONC_RANDOM = {'quick': 120, 'thorough': 4000}
@@ -569,6 +633,11 @@ def gen_cases(tier, seed, shard, nshards):
     for c in starttls_designed():
         if n % nshards == shard:
             c.update(rs=7000 + n, nrand=NRANDOM_CUTS)
+            yield c
+        n += 1
+    for c in full_read_designed():
+        if n % nshards == shard:
+            c.update(rs=6000 + n, nrand=NRANDOM_CUTS)
             yield c
         n += 1
     for c in auth_designed():
@@ -1127,6 +1196,10 @@ def run_case(case, R):
         if any(c[:3] in ('501', '504', '503') for c in codes):
             R.hit('ref-auth-refused')
         R.observe('auth-layout', case.get('layout'))
+    if case.get('origin') == 'full-read':
+        R.observe('read-size', read_size())
+        if len(stream) % read_size() == 0 and all_fed:
+            R.hit('ref-stream-is-a-multiple-of-the-read-size')
     if open_tail and all_fed:
         R.hit('ref-open-tail')
         if open_body and units[-1][1] in fed + [b''] and ref.end == 'connection-lost':
@@ -1157,7 +1230,7 @@ def run_case(case, R):
                 R.observe('limit-crossing', (where, len(d) - limit if len(d) - limit < 6 else 6, last, first))
     # one tag at most (the most specific audit stratum the stream belongs to), so that one root cause does not
     # fan out into a mechanism per combination
-    extra_tag = ([t for t, on in (('+auth-enabled', auth), ('+starttls-refused', n_tls), ('+open-tail', open_tail), ('+hostile-lines', n_hostile),
+    extra_tag = ([t for t, on in (('+stream-fills-read-buffer', case.get('origin') == 'full-read'), ('+auth-enabled', auth), ('+starttls-refused', n_tls), ('+open-tail', open_tail), ('+hostile-lines', n_hostile),
                                   ('+handler-close', ref.end == 'exception:RuntimeError' or
                                    b'\r\n421 4.' in ref.replies)) if on] + [''])[0]
     R.observe('ref-reply-code-sequence', tuple(reply_codes(ref.replies)))
@@ -1172,7 +1245,18 @@ def run_case(case, R):
     bad = {}        # mechanism -> [count, labels, best witness]
     ncmp = 0
     allpairs = not str(case.get('origin', '')).startswith('random') or case['rs'] % 4 == 0
-    for label, cuts in cutsets(stream, units, rnd, case.get('nrand', NRANDOM_CUTS), limit, allpairs):
+    if case.get('origin') == 'full-read':
+        # long command streams: the reads that matter are the full-size ones (a burst comes in R-sized reads)
+        rsz, n = read_size(), len(stream)
+        lf = tuple(i + 1 for i in range(n - 1) if stream[i] == 10)
+        gen = [('burst', ()), ('per-line', lf), ('cut-read-size', tuple(range(rsz, n, rsz))),
+               ('cut-read-size', (rsz - 1,)), ('cut-read-size', (rsz + 1,)), ('cut-read-size', (1,)),
+               ('cut-read-size', (n - 1,)), ('cut-read-size', (n - rsz,) if n > rsz else (n - 2,)),
+               ('cut-read-size', tuple([1] + list(range(rsz + 1, n, rsz)))), ('per-line', lf[::2]), ('per-line', lf[::7])]
+        gen += [('rand', tuple(sorted(rnd.sample(range(1, n), rnd.randint(1, 6))))) for _ in range(6)]
+    else:
+        gen = cutsets(stream, units, rnd, case.get('nrand', NRANDOM_CUTS), limit, allpairs)
+    for label, cuts in gen:
         if cuts in seen:
             continue
         seen.add(cuts)
